@@ -118,16 +118,22 @@ def _replay_1d_same_n(cases, nq):
   from dinosaur import primitive_equations as pe
   out = []
   over_q = lambda fn: jax.vmap(fn, (0, None, None))
-  safe2 = functools.partial(vi._linear_interp_with_safe_extrap, n=2)
+  # private helpers named by the property's anchors: exercised when present (a refactoring may
+  # rename or inline them; the public routines built on them are replayed in any case)
+  dot_interp = getattr(vi, '_dot_interp', None)
+  safe1 = getattr(vi, '_linear_interp_with_safe_extrap', None)
+  sl_interp = getattr(pe, '_vertical_interp', None)
+  safe2 = functools.partial(safe1, n=2) if safe1 else None
   direct = [
       ('interp', 'const', jax.vmap(vi.interp)),
-      ('dot_interp', 'const', jax.vmap(over_q(vi._dot_interp))),
+      ('dot_interp', 'const', jax.vmap(over_q(dot_interp)) if dot_interp else None),
       ('vertical_interpolation', 'const', jax.vmap(vi.vertical_interpolation)),
       ('linear_extrap', 'linear', jax.vmap(over_q(vi.linear_interp_with_linear_extrap))),
-      ('safe_extrap_1', 'safe1', jax.vmap(vi._linear_interp_with_safe_extrap)),
-      ('safe_extrap_1:scalar_x', 'safe1', jax.vmap(over_q(vi._linear_interp_with_safe_extrap))),
-      ('safe_extrap_2', 'safe2', jax.vmap(safe2)),
+      ('safe_extrap_1', 'safe1', jax.vmap(safe1) if safe1 else None),
+      ('safe_extrap_1:scalar_x', 'safe1', jax.vmap(over_q(safe1)) if safe1 else None),
+      ('safe_extrap_2', 'safe2', jax.vmap(safe2) if safe2 else None),
   ]
+  direct = [d for d in direct if d[2] is not None]
   # ---- every case through every routine (cases are batch entries of one library call)
   size = CHUNK if len(cases) > 1 else 1
   for s in range(0, len(cases), size):
@@ -139,8 +145,9 @@ def _replay_1d_same_n(cases, nq):
     C = X.shape[0]
     B = 4 if C % 4 == 0 else 1
     sh = lambda M: np.ascontiguousarray(M.T).reshape(M.shape[1], C // B, B)
-    got = np.asarray(pe._vertical_interp(jnp.asarray(sh(X)), jnp.asarray(sh(XP)), jnp.asarray(sh(FP))))
-    _compare(out, chunk, 'sl_vertical_interp:3d', got.reshape(nq, C).T, E['const'], V, T, X)
+    if sl_interp:
+      got = np.asarray(sl_interp(jnp.asarray(sh(X)), jnp.asarray(sh(XP)), jnp.asarray(sh(FP))))
+      _compare(out, chunk, 'sl_vertical_interp:3d', got.reshape(nq, C).T, E['const'], V, T, X)
   # ---- fields (level, x, y): the first six data columns of every node set form a 2x3 field;
   #      column c looks up the query lattice rolled by c (so no axis can be confused)
   groups = {}
@@ -148,10 +155,11 @@ def _replay_1d_same_n(cases, nq):
     groups.setdefault(tuple(c['xp']), []).append(c)
   gl = [(g * 6)[:6] for g in groups.values()]     # (a lone replayed case fills the field itself)
   vec = [
-      ('interp', 'const', vi.interp), ('dot_interp', 'const', vi._dot_interp),
+      ('interp', 'const', vi.interp), ('dot_interp', 'const', dot_interp),
       ('linear_extrap', 'linear', vi.linear_interp_with_linear_extrap),
-      ('safe_extrap_1', 'safe1', vi._linear_interp_with_safe_extrap), ('safe_extrap_2', 'safe2', safe2),
+      ('safe_extrap_1', 'safe1', safe1), ('safe_extrap_2', 'safe2', safe2),
   ]
+  vec = [v for v in vec if v[2] is not None]
   gsize = GCHUNK if len(gl) > 1 else 1
   for s in range(0, len(gl), gsize):
     gchunk = gl[s:s + gsize]
@@ -169,16 +177,19 @@ def _replay_1d_same_n(cases, nq):
       got = vi.vectorize_vertical_interpolation(fn)(xg, xpg, fg)
       _compare(out, real, f'vectorized[{name}]', unf(got), roll(E[mode]), Vr, Tr, Xr)
     # shared 1-d coordinates through the semi-Lagrangian helper
-    got = jax.vmap(pe._vertical_interp)(jnp.asarray(X[::6]), xpg, fg)
-    exp6 = E['const']
-    _compare(out, real, 'sl_vertical_interp:1d', unf(got), exp6, V, T, X)
+    if sl_interp:
+      got = jax.vmap(sl_interp)(jnp.asarray(X[::6]), xpg, fg)
+      exp6 = E['const']
+      _compare(out, real, 'sl_vertical_interp:1d', unf(got), exp6, V, T, X)
   # ---- a few cases query by query with no batching at all
   for c in cases[:NSCALAR] + cases[-NSCALAR:]:
     X, XP, FP, E, V, T = _prep([c], len(c['q']))
     xp, fp = jnp.asarray(XP[0]), jnp.asarray(FP[0])
-    for name, mode, fn in (('interp', 'const', vi.interp), ('dot_interp', 'const', vi._dot_interp),
+    for name, mode, fn in (('interp', 'const', vi.interp), ('dot_interp', 'const', dot_interp),
                            ('linear_extrap', 'linear', vi.linear_interp_with_linear_extrap),
-                           ('safe_extrap_1', 'safe1', vi._linear_interp_with_safe_extrap)):
+                           ('safe_extrap_1', 'safe1', safe1)):
+      if fn is None:
+        continue
       got = np.array([[float(fn(float(x), xp, fp)) for x in X[0]]])
       _compare(out, [c], f'{name}:scalar_call', got, E[mode], V, T, X)
   return out
